@@ -809,6 +809,10 @@ impl<Aux> Vm<'_, Aux> {
         let mut instr_ptr = 0;
         let result = self._run(&mut instr_ptr);
         self.runtime_data.current_program = std::ptr::null();
+        if result.is_ok() {
+            // the entry frame belongs to this run
+            self.runtime_data.call_stack.pop();
+        }
         result
     }
 
